@@ -198,12 +198,19 @@ async fn check_async(case: &Case, obs: &mut Obs) -> Result<(), Fail> {
                     Ok(v) => outcomes.extend(v),
                     Err(_) => vfail!("c19:block-starved", "Block mode: two contending peers ({na} and {nb} requests) not all admitted (period {:?}, burst {burst})", period),
                 }
-                // B's last request is due at (nb - burst) periods; A's request number nb + 3 three periods later.
+                // B's last request is due after (nb - burst) periods, A's last one six periods later. B being
+                // admitted only after ALL of A's requests means it waited for A's queue. The comparison is
+                // about order, not durations; a scheduling stall (which can also reorder expired timers) is
+                // recognised by a gap in A's own admissions and makes the step inconclusive.
                 let inside = shared.lock().unwrap().inside.clone();
                 let b_last = ids_b.iter().filter_map(|id| inside.get(id)).max().copied();
-                let a_later = inside.get(&ids_a[(nb + 2) as usize]).copied();
-                if let (Some(b_last), Some(a_later)) = (b_last, a_later) {
-                    vensure!(b_last < a_later, "c19:peer-interference", "Block mode, period {:?}, burst {burst}: peer B's last of {nb} requests was admitted {:?} AFTER peer A's request number {} (both started together; B's own quota admits it three periods earlier): B waited for A's queue", period, b_last.duration_since(a_later), nb + 3);
+                let mut a_times: Vec<Instant> = ids_a.iter().filter_map(|id| inside.get(id)).copied().collect();
+                a_times.sort();
+                let stalled = a_times.windows(2).any(|w| w[1].duration_since(w[0]) > period * 5 / 2);
+                if stalled {
+                    obs.label("contend:scheduling-stall(skipped)");
+                } else if let (Some(b_last), Some(a_last)) = (b_last, a_times.last().copied()) {
+                    vensure!(b_last < a_last, "c19:peer-interference", "Block mode, period {:?}, burst {burst}: peer B's last of {nb} requests was admitted {:?} AFTER the last of peer A's {na} requests (both started together; B's own quota admits it six periods earlier, and A's admissions show no scheduling stall): B waited for A's queue", period, b_last.duration_since(a_last));
                     obs.label("two-peers-blocked-at-once");
                 }
             }
@@ -310,7 +317,7 @@ impl Part for Histories {
     type Case = Case;
     fn name(&self) -> &'static str { "histories" }
     fn rule(&self) -> &'static str {
-        "quotas with period 2-50 ms and burst 1-8, 1-4 peers, both wait modes, two services from one layer; scripts of back-to-back/concurrent bursts, sleeps, fresh-peer probes and hint probes run in REAL time; each admission bracketed [before call, inside service]; oracle: per-peer GCRA envelope over every window, refusals never reach the service and carry a parseable wait-nanos in 1 ns ..= 2 periods, waiting the hinted time suffices, first `burst` requests of every peer admitted, fresh peers unaffected by exhausted ones, Block mode admits everything, and (Block, period >= 15 ms) of two peers blocked at once the one with the short queue is served on its own schedule, before the other's queue has drained (ordering oracle); non-trivial = demand exceeded the quota (refusal or blocked wait) with >=2 peers active; distinct by script"
+        "quotas with period 2-50 ms and burst 1-8, 1-4 peers, both wait modes, two services from one layer; scripts of back-to-back/concurrent bursts, sleeps, fresh-peer probes and hint probes run in REAL time; each admission bracketed [before call, inside service]; oracle: per-peer GCRA envelope over every window, refusals never reach the service and carry a parseable wait-nanos in 1 ns ..= 2 periods, waiting the hinted time suffices, first `burst` requests of every peer admitted, fresh peers unaffected by exhausted ones, Block mode admits everything, and (Block, period >= 15 ms) of two peers blocked at once the one with the short queue is served before the other's longer queue has drained (ordering oracle; steps in which the long queue's own admissions show a scheduling stall are skipped and counted); non-trivial = demand exceeded the quota (refusal or blocked wait) with >=2 peers active; distinct by script"
     }
     fn deterministic(&self) -> bool { false }
     fn strategy(&self, _t: Tier) -> BoxedStrategy<Case> {
